@@ -6,6 +6,9 @@ rp = doc['replay']
 res = {'fails': False}
 if 'spec' not in rp:
     res['note'] = 'no concrete input recorded (broken obligation): ' + str(rp)[:500]
+elif rp.get('kind'):
+    msg = c10.run_kind(rp['kind'], rp['spec'])
+    res.update({'oracle': msg, 'recorded': rp.get('msg'), 'fails': bool(msg)})
 else:
     terms = c10.dec_terms(rp['terms'])
     if rp.get('edit'):
